@@ -134,7 +134,7 @@ def gen_script(rng, localraw, ifs, nops, focus):
         if ghosts and rng.random() < 0.25:
             lines.append("GHOST hostname")       # a second Hostname on the same server comes and goes
         if focus == "C17":
-            if not m.reg:
+            if not m.reg and rng.random() < 0.85:       # (sometimes the questions arrive inside a probe / re-assertion window)
                 adv("ADV", m.deadline)
             if r < 0.85:
                 query()
